@@ -802,6 +802,11 @@ func (m *Machine) typeAssert(instr *ssa.TypeAssert, itf iface) value {
 func (m *Machine) lookup(instr *ssa.Lookup, x, idx value) value {
 	switch x := x.(type) {
 	case *mapObj:
+		if kt, isT := idx.(*term.Term); isT && x != nil {
+			if r, done := m.mapLookupUniform(instr, x, kt); done {
+				return r
+			}
+		}
 		v, ok := m.mapLookup(x, idx)
 		if !ok || v == nil {
 			v = zero(instr.X.Type().Underlying().(*types.Map).Elem())
@@ -816,6 +821,61 @@ func (m *Machine) lookup(instr *ssa.Lookup, x, idx value) value {
 		return m.strIndex(x, idx, instr.Index.Type())
 	}
 	panic(fmt.Sprintf("lookup on %T", x))
+}
+
+// mapLookupUniform answers m[k] for a symbolic integer key without forking when every live key is
+// concrete and every live value is the same concrete scalar (set-like maps such as go-pfcp's
+// grouped-IE table): ok = OR(k == ki), value = ite(ok, v, zero).
+func (m *Machine) mapLookupUniform(instr *ssa.Lookup, mo *mapObj, k *term.Term) (value, bool) {
+	if mo.nsym != 0 || mo.n < 4 {
+		return nil, false
+	}
+	var common value
+	ok := m.F.False()
+	for _, e := range mo.entries {
+		if e.deleted {
+			continue
+		}
+		kc, isC := e.key.(uint64)
+		if !isC {
+			return nil, false
+		}
+		switch v := e.val.(type) {
+		case bool, uint64:
+			if common == nil {
+				common = v
+			} else if common != v {
+				return nil, false
+			}
+		default:
+			return nil, false
+		}
+		ok = m.F.BOr(ok, m.F.Eq(k, m.F.Const(k.W, kc)))
+	}
+	et := instr.X.Type().Underlying().(*types.Map).Elem()
+	var v value
+	switch c := common.(type) {
+	case bool:
+		if c {
+			v = boolVal(ok)
+		} else {
+			v = false
+		}
+	case uint64:
+		w, _, isInt := intInfo(et)
+		if !isInt {
+			return nil, false
+		}
+		if c == 0 {
+			v = uint64(0)
+		} else {
+			v = m.F.Ite(ok, m.F.Const(w, c), m.F.Const(w, 0))
+		}
+	}
+	if instr.CommaOk {
+		return tuple{v, boolVal(ok)}, true
+	}
+	return v, true
 }
 
 // ---- builtins ----
